@@ -434,5 +434,26 @@ pub fn catalogue(level: u8) -> Vec<Arc<Shape>> {
 }
 
 pub fn shape_by_name(name: &str) -> Arc<Shape> {
-    catalogue(2).into_iter().find(|s| s.name == name).unwrap_or_else(|| mck::report::machinery(&format!("unknown shape {name:?}")))
+    catalogue(2).into_iter().chain(group_pair_shapes()).find(|s| s.name == name).unwrap_or_else(|| mck::report::machinery(&format!("unknown shape {name:?}")))
+}
+
+/// Every pair (single assertion at step s, sequence assertion with stride t and first step f) on two
+/// columns of a 16-row trace: the two assertions belong to different boundary-constraint groups for
+/// every (s, t, f), whatever the grouping key looks like.
+pub fn group_pair_shapes() -> Vec<Arc<Shape>> {
+    let mut v = vec![];
+    for t in [2usize, 4, 8] {
+        for f in 0..t {
+            for s in 0..16usize {
+                v.push(Arc::new(shape(
+                    &format!("group-pair/single@{s}+seq@{f}/{t}"),
+                    16,
+                    vec![Rule::Pow { d: 2, k: 1 }, Rule::Sum { d: 1 }],
+                    vec![],
+                    vec![ASpec::Single { col: 0, step: s }, ASpec::Sequence { col: 1, first: f, stride: t }],
+                )));
+            }
+        }
+    }
+    v
 }
